@@ -17,7 +17,7 @@ def run(ctx):
         os.makedirs(d, exist_ok=True)
         xdg = os.path.join(d, "xdg")
         a = round(r.loguniform(2e-4, 2e-3), 7)
-        base = dict(GridSize=r.choice([32, 48, 64]), StepsPerTs=r.choice([40, 64, 100]), rotations=r.choice([0.5, 1.0]), outstep=1, SavePhaseSpace=1,
+        base = dict(GridSize=r.choice([32, 33, 48, 64]), StepsPerTs=r.choice([40, 64, 100]), rotations=r.choice([0.5, 1.0]), outstep=1, SavePhaseSpace=1,
                     VacuumGap=0, InterpolationPoints=r.choice([2, 3, 4]), derivation=r.choice([3, 4]), RenormalizeCharge=r.choice([-1, 0]),
                     HarmonicNumber=r.choice([300, 400]), LinearRF=r.chance(0.7))
         if r.chance(0.4):
